@@ -1,8 +1,137 @@
+import CV.Model.Huff
 import CV.Driver.Util
-/-! Line protocol for component `huff` (stub; owned by the component's author) -/
-namespace CV.Driver.Huff
-open CV CV.Driver
+/-!
+Line protocol for the Huffman codebooks:
 
-def handle (_segs : List (List String)) : String := "bad-op"
+`huff <ty> [k] | <weights> | op | op …`
+
+* `ty` ∈ `u8 u16 u32 u64 usize f32 f64`; for float types the optional `k` scales every weight
+  by `2^-k` on the Rust side (exact; irrelevant to the model).
+* `weights`: comma separated hex naturals, `nan` = NaN (float types) / an injected `Err` item of
+  `try_from_probabilities` (integer types); `-` = empty list.
+  Output: `<enc status> <dec status>` (`ok`, `rejected`, `panic:…`); the line ends there unless
+  both are `ok`.
+* ops: `enc` (encoder array), `dec` (decoder table, flattened), `ns` (both `num_symbols`),
+  `book` (all codewords in prefix form), `prefix s [cap]`, `suffix s [cap]` (`cap` = number of
+  `emit` calls that succeed), `decode <bits>` (`0`/`1`, `x` = the source yields `Err`).
+-/
+namespace CV.Driver.Huff
+open CV CV.Driver CV.Huff
+
+def widthOf : String → Option (Option Nat)
+  | "u8" => some (some 8)
+  | "u16" => some (some 16)
+  | "u32" => some (some 32)
+  | "u64" => some (some 64)
+  | "usize" => some (some 64)
+  | "f32" => some none
+  | "f64" => some none
+  | _ => none
+
+def parseWeights (s : String) : Option (List (Option Nat)) :=
+  if s == "-" then some [] else
+  (s.splitOn ",").foldr (fun t acc =>
+    match acc with
+    | none => none
+    | some l =>
+      if t == "nan" then some (none :: l)
+      else match parseHex t with
+        | some v => some (some v :: l)
+        | none => none) (some [])
+
+def showBits (l : List Bool) : String :=
+  if l.isEmpty then "-" else String.ofList (l.map (fun b => if b then '1' else '0'))
+
+def showSrc (l : List (Option Bool)) : String :=
+  if l.isEmpty then "-" else String.ofList (l.map (fun
+    | some true => '1'
+    | some false => '0'
+    | none => 'x'))
+
+def parseSrc (s : String) : Option (List (Option Bool)) :=
+  if s == "-" then some [] else
+  s.toList.foldr (fun c acc =>
+    match acc with
+    | none => none
+    | some l =>
+      if c == '0' then some (some false :: l)
+      else if c == '1' then some (some true :: l)
+      else if c == 'x' then some (none :: l)
+      else none) (some [])
+
+def buildStr {α : Type} : Except BuildErr α → String
+  | .ok _ => "ok"
+  | .error .rejected => "rejected"
+  | .error (.fault f) => faultStr f
+
+def encOut (cap : Option Nat) : Except EncErr (List Bool) → String × Bool
+  | .ok bits =>
+    let (seen, failed) := emitCapped cap bits
+    (showBits seen ++ (if failed then " full" else " ok"), false)
+  | .error .impossible => ("impossible", false)
+  | .error (.fault f) => (faultStr f, true)
+
+def parseCap : List String → Option (Option Nat)
+  | [] => some none
+  | [c] => (parseHex c).map some
+  | _ => none
+
+def bookStr (en : List Nat) : String × Bool :=
+  let n := encNumSymbols en
+  let rec go (i : Nat) (fuel : Nat) (acc : List String) : String × Bool :=
+    match fuel with
+    | 0 => (",".intercalate acc.reverse, false)
+    | fuel + 1 =>
+      match encodePrefix en i with
+      | .ok bits => go (i + 1) fuel (showBits bits :: acc)
+      | .error .impossible => ("impossible", false)
+      | .error (.fault f) => (faultStr f, true)
+  go 0 n []
+
+def doOp (en : List Nat) (dn : List (Nat × Nat)) (seg : List String) : Option (String × Bool) :=
+  match seg with
+  | ["enc"] => some (showList en, false)
+  | ["dec"] => some (showList (dn.foldr (fun (x, y) acc => x :: y :: acc) []), false)
+  | ["ns"] => some (toHex (encNumSymbols en) ++ " " ++ toHex (decNumSymbols dn), false)
+  | ["book"] => some (bookStr en)
+  | "prefix" :: s :: cap => do
+      let s ← parseHex s
+      let cap ← parseCap cap
+      some (encOut cap (encodePrefix en s))
+  | "suffix" :: s :: cap => do
+      let s ← parseHex s
+      let cap ← parseCap cap
+      some (encOut cap (encodeSuffix en s))
+  | ["decode", bits] => do
+      let src ← parseSrc bits
+      match decode dn src with
+      | .ok (s, rest) => some (toHex s ++ " " ++ showSrc rest, false)
+      | .error .outOfData => some ("out_of_data", false)
+      | .error .backend => some ("readerr", false)
+      | .error (.fault f) => some (faultStr f, true)
+  | _ => none
+
+def runOps (en : List Nat) (dn : List (Nat × Nat)) : List (List String) → List String → List String
+  | [], acc => acc.reverse
+  | seg :: rest, acc =>
+    match doOp en dn seg with
+    | none => ("bad-op" :: acc).reverse
+    | some (out, dead) =>
+      if dead then (out :: acc).reverse else runOps en dn rest (out :: acc)
+
+def handle (segs : List (List String)) : String :=
+  match segs with
+  | ("huff" :: ty :: scale) :: [ws] :: ops =>
+    match widthOf ty, parseWeights ws, parseCap scale with
+    | some wb, some weights, some sc =>
+      if wb.isSome && sc.isSome then "bad-op" else
+      let e := tryEncTree wb weights
+      let d := tryDecTree wb weights
+      let head := buildStr e ++ " " ++ buildStr d
+      match e, d with
+      | .ok en, .ok dn => " | ".intercalate (runOps en dn ops [head])
+      | _, _ => head
+    | _, _, _ => "bad-op"
+  | _ => "bad-op"
 
 end CV.Driver.Huff
